@@ -4,7 +4,7 @@ Require Extraction.
 Require Import ExtrOcamlBasic.
 From Coq Require Import List NArith ZArith.
 From Coq.Strings Require Import Byte.
-From Mcap Require Import Bytes GoSem Crc32 Records Writer.
+From Mcap Require Import Bytes GoSem Crc32 Records Writer Lexer.
 Extraction Language OCaml.
 Extraction "model.ml" Bytes.byte_of_N Byte.to_N Crc32.crc32 Writer.W Writer.file_of
-  Records.parse_header.
+  Records.parse_header Lexer.lex_all Lexer.lex_next Lexer.new_lexer.
